@@ -1,2 +1,11 @@
-import TarsModel.Model.Wire
-def main : IO Unit := IO.println "tarsmodel"
+import TarsModel.Driver.Common
+import TarsModel.Driver.Wire
+
+open Tars.Driver
+
+def main (args : List String) : IO UInt32 := do
+  let stdin ← IO.getStdin
+  let stdout ← IO.getStdout
+  match args with
+  | ["wire"] => loopPure stdin stdout Wire.handle; return 0
+  | _ => IO.eprintln "usage: tarsmodel <stream>"; return 2
